@@ -1627,3 +1627,14 @@ for _i in (1, 2, 3, 4, 5, 6, 7, 8, 10, 11, 12, 13, 14, 15, 16, 17, 18, 19, 20):
 for _i in (1, 2, 3, 4, 5, 6, 7, 8, 10, 11, 12, 13, 14, 15, 16, 17, 18, 19, 20):
     VARIANTS.append(dict(id="arith-spellings-c%02d" % _i, prop="C%02d" % _i, expect="undecided", rule=None, edits=[("@arith_spellings",)],
                          what="constant operands of + and * on the other side, x / 2 -> x * 0.5, x ** 2 -> x * x, x[0:n] -> x[:n]: accepted or undecided, never an alarm"))
+for _i in (1, 2, 3, 4, 5, 6, 7, 8, 10, 11, 12, 13, 14, 15, 16, 17, 18, 19, 20):
+    VARIANTS.append(dict(id="all-spellings-c%02d" % _i, prop="C%02d" % _i, expect="undecided", rule=None,
+                         edits=[("@small_idioms",), ("@flip_comparisons",), ("@logic_spellings",), ("@local_aliases",), ("@method_spellings",), ("@statement_spellings",),
+                                ("@np_constructors",), ("@literal_spellings",), ("@arith_spellings",), ("@import_styles",)],
+                         what="ten of the spelling transforms applied together: accepted or undecided, never an alarm"))
+for _i in (1, 2, 3, 4, 5, 6, 7, 8, 10, 11, 12, 13, 14, 15, 16, 17, 18, 19, 20):
+    VARIANTS.append(dict(id="defensive-copies-c%02d" % _i, prop="C%02d" % _i, expect="undecided", rule=None, edits=[("@defensive_copies",)],
+                         what="`A = A.copy()` at the top of every utils function that only reads its matrix parameter: accepted or undecided, never an alarm"))
+for _i in (1, 2, 3, 4, 5, 6, 7, 8, 10, 11, 12, 13, 14, 15, 16, 17, 18, 19, 20):
+    VARIANTS.append(dict(id="local-snapshots-c%02d" % _i, prop="C%02d" % _i, expect="undecided", rule=None, edits=[("@local_snapshots",)],
+                         what="`A_ = A.copy()` and A_ read wherever A stood, in every utils function that only reads its matrix parameter: accepted or undecided, never an alarm"))
